@@ -74,7 +74,7 @@ fn cases(rec: &Value) -> Vec<Case> {
 }
 
 /// numbers of a projected tree in traversal order: (mantissa string, neg, scale)
-fn numbers(v: &Value, out: &mut Vec<(String, bool, u64)>) {
+pub fn numbers(v: &Value, out: &mut Vec<(String, bool, u64)>) {
     match v {
         Value::Object(o) => {
             if o.contains_key("m") && o.contains_key("neg") && o.contains_key("s") && o.contains_key("f") {
@@ -88,7 +88,7 @@ fn numbers(v: &Value, out: &mut Vec<(String, bool, u64)>) {
     }
 }
 
-fn strip_numbers(v: &Value) -> Value {
+pub fn strip_numbers(v: &Value) -> Value {
     match v {
         Value::Object(o) => {
             if o.contains_key("m") && o.contains_key("neg") && o.contains_key("s") && o.contains_key("f") { return json!("#"); }
@@ -100,7 +100,7 @@ fn strip_numbers(v: &Value) -> Value {
     }
 }
 
-fn dec_of(n: &(String, bool, u64)) -> Decimal {
+pub fn dec_of(n: &(String, bool, u64)) -> Decimal {
     let mut d = Decimal::from_i128_with_scale(n.0.parse::<i128>().unwrap_or(0), n.2 as u32);
     if n.1 { d = -d; }
     d
